@@ -284,3 +284,55 @@ def enumerate_paths(run, ops=("<", ">", "<=", ">=", "argmax", "argmin"), max_pat
         except Exception as e:        # Raised / Unsupported ... : a terminal outcome of this path
             out.append((list(taken), e))
     return out
+
+
+# ------------------------------------------------------------------------------------------ structural discovery helpers
+def newton_updates(func_node):
+    """[(while_node, x, u, v, u_expr, v_expr)] for loops containing  x -= u/v  or  x = x - u/v  with u, v assigned in the loop"""
+    out = []
+    for w in _ast.walk(func_node):
+        if not isinstance(w, _ast.While):
+            continue
+        assigns = {}
+        for s in w.body:
+            if isinstance(s, _ast.Assign) and isinstance(s.targets[0], _ast.Name):
+                assigns[s.targets[0].id] = s.value
+        for s in w.body:
+            x = u = v = None
+            if isinstance(s, _ast.AugAssign) and isinstance(s.op, _ast.Sub) and isinstance(s.target, _ast.Name) and isinstance(s.value, _ast.BinOp) and isinstance(s.value.op, _ast.Div):
+                x, u, v = s.target.id, s.value.left, s.value.right
+            elif isinstance(s, _ast.Assign) and isinstance(s.targets[0], _ast.Name) and isinstance(s.value, _ast.BinOp) and isinstance(s.value.op, _ast.Sub) \
+                    and isinstance(s.value.left, _ast.Name) and s.value.left.id == s.targets[0].id and isinstance(s.value.right, _ast.BinOp) and isinstance(s.value.right.op, _ast.Div):
+                x, u, v = s.targets[0].id, s.value.right.left, s.value.right.right
+            if x and isinstance(u, _ast.Name) and isinstance(v, _ast.Name) and u.id in assigns and v.id in assigns:
+                out.append((w, x, u.id, v.id, assigns[u.id], assigns[v.id]))
+    return out
+
+
+def eval_free(prog, module, func, expr, bind=None):
+    """evaluate an expression AST with every free Name bound to a symbol of that name (or to ``bind[name]``)"""
+    from .symeval import Env
+    it = Interp(prog)
+    env = Env(module, func)
+    bind = dict(bind or {})
+    for n in _ast.walk(expr):
+        if isinstance(n, _ast.Name) and isinstance(n.ctx, _ast.Load) and n.id not in env.vars:
+            if n.id in bind:
+                env.vars[n.id] = bind[n.id]
+            elif module.resolve_name(n.id) is None and n.id not in ("np", "abs", "float", "int", "len"):
+                env.vars[n.id] = P.sym("v_" + n.id)
+    return it.eval(expr, env)
+
+
+def newton_derivative(prog, func):
+    """verdict: in every Newton loop of ``func``, the divisor is the derivative of the dividend w.r.t. the iterate"""
+    ups = newton_updates(func.node)
+    if not ups:
+        return (None, "no Newton update  x -= u/v  found")
+    outs = []
+    for w, x, u, v, ue, ve in ups:
+        xs = P.sym("v_" + x)
+        uu = eval_free(prog, func.module, func, ue)
+        vv = eval_free(prog, func.module, func, ve)
+        outs.append(eq(vv, uu.deriv("v_" + x), "%s == d %s / d %s" % (v, u, x)))
+    return all_of(*outs)
